@@ -1234,3 +1234,193 @@ def run_c12(ctx):
 
 
 REGISTRY["C12"] = dict(module="Properties_C12", run=run_c12)
+
+
+# ------------------------------------------------------------------------------------------
+# C18 (tokenisation) and C03 (robust reading)
+import speclex
+import gen_text
+
+LEXEMES = [b"true", b"TRUE", b"fAlSe", b"truex", b"a", b"a-b", b"x_1*", b"*", b"L", b"e5", b"0x", b"0", b"7", b"-12", b"+3", b"010",
+           b"08", b"2147483648", b"-2147483649", b"9223372036854775807", b"9223372036854775808", b"12L", b"12LL", b"010L",
+           b"0x1F", b"0XaB", b"0xFFFFFFFF", b"0x100000000", b"0x1FL", b"0xFFFFFFFFFFFFFFFFL", b"0x10000000000000000L", b"1.", b".5",
+           b".", b"-.", b"+.5e3", b".5e-3", b"1e5", b"1E+5", b"1.5e", b"1e", b"1.e5", b".e5", b"1e999", b"-1e999", b"1e-999", b"1.7976931348623157e308",
+           b"\"\"", b"\"a\"", b"\"a\\nb\"", b"\"\\a\\b\\v\\f\\r\\t\"", b"\"\\x41\\X7e\"", b"\"\\q\\\"", b"\"\\\\\"", b"\"\\x4\"",
+           b"\"line1\nline2\"", b"=", b":", b",", b";", b"{", b"}", b"[", b"]", b"(", b")", b"#c\n", b"//c\n", b"/*c*/", b"/* a\n b */", b"/*",
+           b"\x07", b"\x08", b"\x0b", b"\x0c", b"\r", b"$", b"@", b"\x80", b"\xff", b"\x7f", b"!", b"@include", b"include"]
+SEPS_LEX = [b"", b"", b" ", b"\t", b"\n", b" \n ", b";", b","]
+SOUP = b"0123456789+-.eExXLlTRUEtrufalsFabc_*\"\\ \t\n=:,;{}[]()#/*@\x07\x0b$\xe9"
+
+
+def c18_inputs(rng, n):
+    res = []
+    for i in range(n):
+        k = i % 5
+        if k == 0:
+            t = b"".join(rng.choice(LEXEMES) + rng.choice(SEPS_LEX) for _ in range(rng.randint(1, 8)))
+        elif k == 1:
+            t = bytes(rng.choice(SOUP) for _ in range(rng.randint(1, 24)))
+        elif k == 2:
+            t = rng.choice(gen_text.literal_spellings(rng, 4)) + rng.choice(SEPS_LEX) + rng.choice(LEXEMES)
+        elif k == 3:
+            body = b"".join(rng.choice([b"a", b"\\n", b"\\a", b"\\b", b"\\v", b"\\\\", b"\\\"", b"\\x4a", b"\\x4", b"\\q", b"\\", b"\n", b"\xc3\xa9", b"\x01"])
+                            for _ in range(rng.randint(0, 12)))
+            t = rng.choice([b"", b"x = "]) + b"\"" + body + rng.choice([b"\"", b"\" \"y\"", b""])
+        else:
+            t = gen_text.mutate_bytes(rng, gen_text.rand_config(rng, size=4), rng.randint(0, 3))
+        if b"\0" in t:
+            t = t.replace(b"\0", b"0")
+        res.append(t)
+    return res
+
+
+def c18_oracle(script, rec):
+    """documented tokenisation (speclex) versus the implementation's token stream"""
+    bad = died(script, rec)
+    al = align(script, rec["impl"])
+    # 'lex' outputs K lines and a final R line; align() only takes the R line, so cut the raw transcript per op
+    ops = [l for l in script.splitlines() if l]
+    chunks = []
+    cur = []
+    for l in rec["impl"]:
+        cur.append(l)
+        if l.startswith("R "):
+            chunks.append(cur)
+            cur = []
+    for op, ch in zip(ops, chunks):
+        f = op.split(" ")
+        if f[0] != "lex":
+            continue
+        data = unhx(f[1]) or b""
+        want = speclex.tokens(data)
+        if want and want[-1].startswith("INCLUDE"):
+            continue
+        got = [l for l in ch if l.startswith(("K ", "R "))]
+        if got != want:
+            d = first_diff(want, got)
+            bad.append("input %r: documented tokenisation gives %s, the scanner produced %s (token #%d)" % (
+                data, d[1], d[2], d[0]))
+    return bad
+
+
+def run_c18(ctx):
+    res = Result()
+    rc = replay_cases(ctx)
+    if rc is not None:
+        cases = rc
+    else:
+        ins = c18_inputs(ctx.rng, 3000 if ctx.tier == "quick" else 40000)
+        per = 25
+        cases = ["init\n" + "".join("lex %s\n" % hx(t) for t in ins[i:i + per]) for i in range(0, len(ins), per)]
+        res.distribution["inputs"] = len(ins)
+        res.distribution["bytes"] = sum(len(t) for t in ins)
+    res.rule = ("token streams of libconfig_yylex (kind, value, line) on lexeme soups joined by every separator incl. none, "
+                "random strings over a scanner-relevant alphabet, numeric boundary spellings, escape mixes, mutated "
+                "configurations; compared with the model (compiled tables + actions) and, model-free, with a tokenizer "
+                "written from the documented patterns (pygen/speclex.py)")
+    res.distinct = len(set(cases))
+    res.samples = [cases[0][:600]] if cases else []
+    res.exhaustive = False
+    keep = lambda l: l if l.startswith(("K ", "R ")) else None
+    correspond(ctx, res, cases, line_filter=keep, oracle=c18_oracle,
+               known=lambda s, r, o: match_known("C18", s, r, o), per_proc=10)
+    return res
+
+
+REGISTRY["C18"] = dict(module="Properties_C18", run=run_c18,
+                       extra_obligations=["all_closed_checked", "all_start_checked", "actions_as_documented"])
+
+
+def c03_inputs(rng, n):
+    res = []
+    for i in range(n):
+        k = i % 8
+        if k == 0:
+            t = gen_text.mutate_bytes(rng, gen_text.rand_config(rng, size=rng.choice([3, 20, 200])), rng.randint(1, 6))
+        elif k == 1:
+            t = bytes(rng.randrange(256) for _ in range(rng.randint(0, 64)))
+        elif k == 2:
+            d = rng.choice([10, 100, 1000, 3000])
+            op, cl = rng.choice([(b"a={", b"}"), (b"(", b")"), (b"a=[", b"]"), (b"a=(", b");")])
+            t = (b"x=" if op == b"(" else b"") + op * d + (cl * rng.choice([0, d, d - 1]))
+        elif k == 3:
+            t = rng.choice([b"a = \"unterminated", b"/* unterminated", b"a = \"x\\", b"@include \"", b"@include \"nosuch\"\n",
+                            b"@include \"adir\"\n", b"@include \"self.cfg\"\n", b"a = [1, \"x\"];", b"a=1;a=2;", b"a = 1e999;",
+                            b"@include \"a\\qb\"\n", b"\"", b"\\", b"a = (((((", b"a = 99999999999999999999;", b"a = 0x;"])
+        elif k == 4:
+            t = gen_text.rand_config(rng, size=rng.choice([500, 3000]))      # long valid input
+        elif k == 5:
+            t = b"a = \"" + bytes(rng.choice(b"ab\\n\"x ") for _ in range(rng.choice([63, 64, 65, 127, 128, 129, 1000]))) + b"\";"
+        elif k == 6:
+            t = gen_text.mutate_tokens(rng, gen_text.rand_config(rng, size=6))
+        else:
+            t = gen_text.rand_config(rng, size=5).replace(b"=", rng.choice([b"=", b"\0=", b"= \0"]), 1)
+        res.append(t)
+    return res
+
+
+C03_BATTERY = ["dump", "len .", "look . %s" % hx(b"a"), "clook %s" % hx(b"a.b.[0]"), "write", "add . %s 2" % hx(b"zz9"),
+               "set i 0 5", "rmi . 0", "reads %s" % hx(b"ok = 1;"), "dump", "clear", "dump"]
+
+
+def c03_oracle(script, rec):
+    bad = died(script, rec)
+    if rec["status"] != "ok":
+        bad.append("process status %s (sanitizer report / crash / exit / hang): %s" % (rec["status"], rec["stderr"][-300:].replace("\n", " | ")))
+    for l in rec["impl"]:
+        if l.startswith("L stdout") or l.startswith("L stderr"):
+            bad.append("stray output on a standard stream during a read: %s" % l[:80])
+        if l in ("L FDLEAK", "L STREAMBAD"):
+            bad.append(l)
+        if l.startswith("S ") and "BAD" in l:
+            bad.append("after a read: " + l)
+    al = align(script, rec["impl"])
+    for op, out in al:
+        if op.split(" ")[0] in ("reads", "readst", "readf") and out and out[0] not in ("R i0", "R i1"):
+            bad.append("'%s...' returned %s" % (op[:30], out[0]))
+    return bad
+
+
+def run_c03(ctx):
+    res = Result()
+    rc = replay_cases(ctx)
+    if rc is not None:
+        cases = rc
+    else:
+        ins = c03_inputs(ctx.rng, 480 if ctx.tier == "quick" else 12000)
+        cases = []
+        setup = ["init", "fs dir %s" % hx(b"adir"), "fs put %s %s" % (hx(b"self.cfg"), hx(b"@include \"self.cfg\"\n")),
+                 "fs put %s %s" % (hx(b"inc.cfg"), hx(b"z = 1;\n"))]
+        for i, t in enumerate(ins):
+            entry = ["reads", "readst", "readf"][i % 3]
+            if entry == "reads" and b"\0" in t:
+                entry = "readst"
+            if entry == "readf":
+                body = setup + ["fs put %s %s" % (hx(b"in.cfg"), hx(t)), "readf %s" % hx(b"in.cfg")]
+            else:
+                body = setup + ["%s %s" % (entry, hx(t))]
+            deep = max(t.count(b"{"), t.count(b"("), t.count(b"[")) > 150
+            battery = [x for x in C03_BATTERY if not (deep and x in ("dump", "write"))]
+            cases.append("\n".join(body + battery) + "\n")
+        res.distribution["inputs"] = len(ins)
+        res.distribution["bytes"] = sum(len(t) for t in ins)
+        res.distribution["max_len"] = max(len(t) for t in ins)
+    res.rule = ("byte-mutated configurations, random bytes (all 256 values, embedded NULs through the stream entry point), "
+                "nesting to 3000 levels with and without closers, unterminated strings/comments/includes, include of a "
+                "missing file / a directory / the file itself, long inputs and strings around the 64-byte buffer blocks; "
+                "through config_read_string / config_read / config_read_file under ASan+UBSan+LSan with a deadline; "
+                "each followed by traversal, lookup, write, modify, re-read, clear; outcome, stdout capture, fd count "
+                "and the follow-up transcript compared with the model")
+    res.distinct = len(set(cases))
+    res.samples = [cases[1][:500]] if len(cases) > 1 else []
+
+    def keep(l):
+        if l.startswith("L stdout"):
+            return "L stdout"
+        return l
+    correspond(ctx, res, cases, line_filter=keep, oracle=c03_oracle,
+               known=lambda s, r, o: match_known("C03", s, r, o), per_proc=8)
+    return res
+
+
+REGISTRY["C03"] = dict(module="Properties_C03", run=run_c03, extra_obligations=["nonnull_checked", "first_byte_checked"])
